@@ -126,12 +126,12 @@ Section Proofs.
   Definition results (ret : option val) (outs : list val) : list val :=
     match ret with Some r => r :: outs | None => outs end.
 
-  (* the caller's maps after the call; None when a nil map was passed where the servant set a non-empty map *)
-  Definition maps_after (o : opts) (rc rs : smap) : option (list smap) :=
+  (* the caller's maps after the call: each non-nil map holds exactly the response map; a nil map stays nil *)
+  Definition maps_after (o : opts) (rc rs : smap) : list smap :=
     match o with
-    | [c] => option_map (fun c' => [c']) (copy_into c rc)
-    | [c; st] => match copy_into c rc, copy_into st rs with Some c', Some s' => Some [c'; s'] | _, _ => None end
-    | _ => Some []
+    | [c] => [copy_into c rc]
+    | [c; st] => [copy_into c rc; copy_into st rs]
+    | _ => []
     end.
 
   Definition ok_reply (f : fsig) (q : reqpkt) (ret : option val) (outs : list val) (rc rs : smap) : rsppkt :=
@@ -165,18 +165,17 @@ Section Proofs.
   Proof. unfold is_oneway. cbn. destruct ow; reflexivity. Qed.
 
   (* C01_transparent_ok *)
-  Theorem transparent_ok (Pc Ps : pfilters ev unit) i f args o id sv t ret outs rc rs maps :
+  Theorem transparent_ok (Pc Ps : pfilters ev unit) i f args o id sv t ret outs rc rs :
     let q := mkreq f args o false id sv t in
     find_fn i (fs_name f) = Some f ->
     wire_ok_req q -> args_roundtrip f args ->
     impl (fs_name f) (ins_of f args) (ctx_of o) (status_of o) = IOk ret outs rc rs ->
     ret_shape f ret -> results_roundtrip f args (results ret outs) ->
     wire_ok_rsp (ok_reply f q ret outs rc rs) ->
-    maps_after o rc rs = Some maps ->
     call (filters_of inv_res Pc) (filters_of disp_res Ps) i f args o false id sv t =
-    (COk ret outs maps, core_events Pc Ps f args o true).
+    (COk ret outs (maps_after o rc rs), core_events Pc Ps f args o true).
   Proof.
-    cbn zeta. intros Hf Hwq Hargs Himpl Hshape [rest Hres] Hwp Hmaps.
+    cbn zeta. intros Hf Hwq Hargs Himpl Hshape [rest Hres] Hwp.
     rewrite call_pass. unfold inv_result, inv_events, srv_reply, srv_events.
     rewrite Hwq. rewrite oneway_flag. rewrite (dispatch_reaches_impl i f args o false id sv t Hf Hargs), Himpl.
     cbn [fst snd reply_of p_ver p_ptype p_id p_mtype p_ret p_buf p_status p_desc p_ctx].
@@ -186,14 +185,15 @@ Section Proofs.
     cbn [p_id]. rewrite Z.eqb_refl. unfold map_reply. cbn [p_ret]. cbn [Z.eqb].
     unfold core_events. f_equal.
     - unfold EndToEnd.proxy_finish. cbn [p_buf p_ctx p_status]. rewrite Hres.
-      unfold ret_shape in Hshape. unfold maps_after in Hmaps. unfold results.
+      unfold ret_shape in Hshape. unfold maps_after, results.
       destruct (fs_ret f), ret; try contradiction; cbn [hd tl];
-        destruct o as [|c [|st [|x o']]]; cbn in Hmaps |- *;
-        try (injection Hmaps as <-; reflexivity);
-        try (destruct (copy_into c rc); [|discriminate]; cbn in Hmaps;
-             try (destruct (copy_into st rs); [|discriminate]); injection Hmaps as <-; reflexivity).
+        destruct o as [|c [|st [|x o']]]; reflexivity.
     - norm_app.
   Qed.
+
+  (* what the caller reads from the error: the message, or a framework-made text when the message is empty *)
+  Definition err_seen (c : Z) (m : bytes) : call_res :=
+    match m with [] => CErr c sys_msg true | _ => CErr c m false end.
 
   (* C01_transparent_err *)
   Theorem transparent_err (Pc Ps : pfilters ev unit) i f args o id sv t c m :
@@ -201,21 +201,20 @@ Section Proofs.
     find_fn i (fs_name f) = Some f ->
     wire_ok_req q -> args_roundtrip f args ->
     impl (fs_name f) (ins_of f args) (ctx_of o) (status_of o) = IFail c m ->
-    c <> 0%Z -> m <> [] ->
+    c <> 0%Z ->
     wire_ok_rsp (err_reply q c m) ->
     call (filters_of inv_res Pc) (filters_of disp_res Ps) i f args o false id sv t =
-    (CErr c m false, core_events Pc Ps f args o true).
+    (err_seen c m, core_events Pc Ps f args o true).
   Proof.
-    cbn zeta. intros Hf Hwq Hargs Himpl Hc Hm Hwp.
+    cbn zeta. intros Hf Hwq Hargs Himpl Hc Hwp.
     rewrite call_pass. unfold inv_result, inv_events, srv_reply, srv_events.
     rewrite Hwq. rewrite oneway_flag. rewrite (dispatch_reaches_impl i f args o false id sv t Hf Hargs), Himpl.
     cbn [fst snd reply_of]. unfold err_reply, wire_ok_rsp in Hwp. rewrite Hwp.
     cbn [p_id]. rewrite Z.eqb_refl. unfold map_reply. cbn [p_ret p_desc].
     destruct (c =? 0)%Z eqn:Hc0; [apply Z.eqb_eq in Hc0; contradiction|].
     unfold core_events. f_equal.
-    - destruct m as [|b m]; [contradiction|]. destruct (c =? 1)%Z eqn:H1.
-      + apply Z.eqb_eq in H1. subst c. reflexivity.
-      + reflexivity.
+    - unfold err_seen. destruct m as [|b m]; destruct (c =? 1)%Z eqn:H1;
+        try (apply Z.eqb_eq in H1; subst c); reflexivity.
     - norm_app.
   Qed.
 
@@ -233,38 +232,4 @@ Section Proofs.
     cbn [snd]. unfold core_events. f_equal. norm_app.
   Qed.
 
-  (* ---------- the two open defects, as outcomes of the model ---------- *)
-  (* an error with an empty message arrives as code 1 with a framework-made text *)
-  Theorem empty_message_maps_to_code_1 (Pc Ps : pfilters ev unit) i f args o id sv t c :
-    let q := mkreq f args o false id sv t in
-    find_fn i (fs_name f) = Some f -> wire_ok_req q -> args_roundtrip f args ->
-    impl (fs_name f) (ins_of f args) (ctx_of o) (status_of o) = IFail c [] -> c <> 0%Z ->
-    wire_ok_rsp (err_reply q c []) ->
-    fst (call (filters_of inv_res Pc) (filters_of disp_res Ps) i f args o false id sv t) = CErr 1 sys_msg true.
-  Proof.
-    cbn zeta. intros Hf Hwq Hargs Himpl Hc Hwp.
-    rewrite call_pass. unfold inv_result, srv_reply. rewrite Hwq, oneway_flag.
-    rewrite (dispatch_reaches_impl i f args o false id sv t Hf Hargs), Himpl.
-    cbn [fst reply_of]. unfold err_reply, wire_ok_rsp in Hwp. rewrite Hwp. cbn [p_id]. rewrite Z.eqb_refl.
-    unfold map_reply. cbn [p_ret p_desc]. destruct (c =? 0)%Z eqn:Hc0; [apply Z.eqb_eq in Hc0; contradiction|]. reflexivity.
-  Qed.
-
-  (* a nil context map passed by the caller and a response context set by the implementation: the proxy panics *)
-  Theorem nil_context_map_panics (Pc Ps : pfilters ev unit) i f args id sv t ret outs kv rc rs :
-    let o := [None] in
-    let q := mkreq f args o false id sv t in
-    find_fn i (fs_name f) = Some f -> wire_ok_req q -> args_roundtrip f args ->
-    impl (fs_name f) (ins_of f args) (ctx_of o) (status_of o) = IOk ret outs (kv :: rc) rs ->
-    results_roundtrip f args (results ret outs) ->
-    wire_ok_rsp (ok_reply f q ret outs (kv :: rc) rs) ->
-    fst (call (filters_of inv_res Pc) (filters_of disp_res Ps) i f args o false id sv t) = CPanic.
-  Proof.
-    cbn zeta. intros Hf Hwq Hargs Himpl [rest Hres] Hwp.
-    rewrite call_pass. unfold inv_result, srv_reply. rewrite Hwq, oneway_flag.
-    rewrite (dispatch_reaches_impl i f args [None] false id sv t Hf Hargs), Himpl.
-    cbn [fst reply_of p_ver p_ptype p_id p_mtype p_ret p_buf p_status p_desc p_ctx].
-    unfold ok_reply, wire_ok_rsp in Hwp. cbn [q_ver q_id q_ptype EndToEnd.mkreq] in *. rewrite Hwp.
-    cbn [p_id]. rewrite Z.eqb_refl. unfold map_reply. cbn [p_ret Z.eqb].
-    unfold EndToEnd.proxy_finish. cbn [p_buf p_ctx]. rewrite Hres. reflexivity.
-  Qed.
 End Proofs.
